@@ -41,7 +41,7 @@ theorem restart_keeps_inputs (s : St) :
 theorem restart_loses_only_dirtied {s : St} (h : Quiescent s) :
     restart s = { s with dirtied := [], dirtiedEdges := 0 } := restart_quiescent h
 
-example : Quiescent ({} : St) ∧ syncedB PS.init = true := ⟨⟨rfl, rfl⟩, by decide⟩
+example : Quiescent ({} : St) ∧ syncedB PS.init = true := ⟨⟨rfl, rfl, rfl⟩, by decide⟩
 
 end Qbice.Persist
 
